@@ -169,7 +169,26 @@ func stressSpec(rng *rand.Rand, k int) (*core.Spec, *core.Model) {
 			return s, m
 		}
 	}
-	return core.GenSpec(rng, core.GenOpts{Want: core.ClsOK, Specials: k%2 == 0, MaxTypes: 7})
+	if k%3 == 1 {
+		// multi-output constructors, also with a grouped first output, in every lifetime
+		s := &core.Spec{Regs: []core.Reg{
+			core.MkReg("OutG_K0K1", godi.Scoped),
+			core.MkReg("MR_S0S4", godi.Scoped, core.WithGroup("h")),
+			core.MkReg("Leaf_K0_a", godi.Transient, core.WithGroup("g")),
+			core.MkReg("PosA_2_2", godi.Scoped), // K2(K1)
+			core.MkReg("Leaf_K0_b", godi.Singleton),
+			core.MkReg("OutS_S1S5", godi.Singleton), // S1,S5 (K0)
+			core.MkReg("MR_K0S0", godi.Transient, core.WithName("t")),
+		}}
+		m := core.NewModel(s)
+		if m.Class != core.ClsOK {
+			panic("harness fixture of C09 (multi-output stress spec) is not buildable: " + m.Class.String())
+		}
+		if k%2 == 1 {
+			return s, m
+		}
+	}
+	return core.GenSpec(rng, core.GenOpts{Want: core.ClsOK, Specials: k%2 == 0, MaxTypes: 7, OutGroup: k%4 == 0, MultiOpt: k%4 == 0, MultiAlias: k%4 == 2})
 }
 
 func runC09(c *eng.Ctx) {
